@@ -17,6 +17,8 @@ import (
 	"path/filepath"
 	"strconv"
 	"strings"
+	"sync"
+	"sync/atomic"
 	"time"
 
 	"golang.zx2c4.com/wireguard/device"
@@ -52,13 +54,14 @@ type MsgSpec struct {
 }
 
 type Step struct {
-	Op      string   `json:"op"` // msg | tun | shift | restart | load | sleep | align
+	Op      string   `json:"op"` // msg | tun | shift | restart | load | burst | sleep | align
 	Msg     *MsgSpec `json:"msg,omitempty"`
 	Peer    int      `json:"peer,omitempty"`
 	Inner   int      `json:"inner,omitempty"`
 	ShiftMs int64    `json:"shift_ms,omitempty"`
 	SleepMs int      `json:"sleep_ms,omitempty"`
 	On      bool     `json:"on,omitempty"` // load: VerifForceUnderLoad on / off
+	K       int      `json:"k,omitempty"`  // burst: number of goroutines calling SendHandshakeInitiation(false) at once
 }
 
 type Scenario struct {
@@ -73,6 +76,7 @@ type ObsStep struct {
 	Out     []string `json:"out"`
 	Skipped bool     `json:"skipped,omitempty"`
 	GapNs   int64    `json:"gap_ns,omitempty"`
+	Inits   int      `json:"inits,omitempty"` // burst: initiations that left
 }
 
 type Case struct {
@@ -177,12 +181,13 @@ type runner struct {
 	nextEph  int
 	lhLast   map[int]string
 	lhCount  map[int]int
-	lastAcc  map[int]int64 // harness time of the last accepted initiation per initiator
+	lastAcc  map[int]int64    // harness time of the last accepted initiation per initiator
+	issued   map[int][]uint32 // every local index the device was seen to issue for a peer (initiation / response sender)
 }
 
 func newRunner() (*runner, error) {
 	r := &runner{peers: map[int]*cosim.RefPeer{}, privs: map[int]ref.Key{}, pubs: map[int]ref.Key{}, psks: map[int]ref.Key{},
-		addrID: map[string]int{}, built: map[int]*builtMsg{}, nextIdx: 0x1000, lhLast: map[int]string{}, lhCount: map[int]int{}, lastAcc: map[int]int64{}}
+		addrID: map[string]int{}, built: map[int]*builtMsg{}, nextIdx: 0x1000, lhLast: map[int]string{}, lhCount: map[int]int{}, lastAcc: map[int]int64{}, issued: map[int][]uint32{}}
 	a := cosim.NewPeer("A", "192.0.2.7:5555", "10.0.0.0/24")
 	b := cosim.NewPeer("B", "192.0.2.8:6666", "10.0.1.0/24")
 	b.Psk = ref.NewPrivate()
@@ -333,6 +338,16 @@ func (r *runner) build(m *MsgSpec) *builtMsg {
 			}
 			binary.LittleEndian.PutUint32(bytes[8:], uint32(mu.V))
 			gm = append(gm, "sb 2")
+		case "receiver_issued":
+			// receiver := the V-th index the device ever issued for this peer (session or stale index),
+			// never the index of the handshake in progress
+			lst := r.issued[m.From]
+			di := r.latestInit(m.From, 0)
+			if int(mu.V) >= len(lst) || di == nil || lst[mu.V] == di.sender {
+				return nil
+			}
+			binary.LittleEndian.PutUint32(bytes[8:], lst[mu.V])
+			gm = append(gm, "sb 2")
 		case "receiver_of":
 			di := r.latestInit(int(mu.V), 0)
 			if di == nil {
@@ -397,6 +412,7 @@ func (r *runner) describeOut(out cosim.Out, ist *ref.InitiatorState) (gal []stri
 			human = append(human, fmt.Sprintf("initiation to=%d peer=%d sender=%08x ts=%x", to, p, d.Sender, d.Timestamp))
 			oidx = d.Sender
 			initTs = d.Timestamp
+			r.issued[p] = append(r.issued[p], d.Sender)
 		case "response":
 			p := r.peerID(d.Mac1Peer)
 			if !d.Mac2Zero {
@@ -408,6 +424,7 @@ func (r *runner) describeOut(out cosim.Out, ist *ref.InitiatorState) (gal []stri
 					opens = true
 				}
 			}
+			r.issued[p] = append(r.issued[p], d.Sender)
 			gal = append(gal, fmt.Sprintf("orr %d %d %d %d %v", to, p, d.Sender, d.Receiver, opens))
 			human = append(human, fmt.Sprintf("response to=%d peer=%d sender=%08x receiver=%08x opens=%v", to, p, d.Sender, d.Receiver, opens))
 			oidx = d.Sender
@@ -583,6 +600,34 @@ func runScenario(sc Scenario) (Case, error) {
 		case "restart":
 			body = "br"
 			act = func() { r.w.Dev.Down(); r.w.Dev.Up() }
+		case "burst":
+			// K goroutines released together call SendHandshakeInitiation(false) the way the timer
+			// callbacks do (hook of the C07 check); the write-locked re-check must let exactly one through
+			k := s.K
+			if k < 1 {
+				k = 1
+			}
+			body = fmt.Sprintf("(bi %d %d)", s.Peer, k)
+			pk := cosim.NoisePK(r.pubs[s.Peer])
+			act = func() {
+				var gate atomic.Bool
+				var ready, done sync.WaitGroup
+				for i := 0; i < k; i++ {
+					ready.Add(1)
+					done.Add(1)
+					go func() {
+						defer done.Done()
+						ready.Done()
+						for !gate.Load() {
+						}
+						r.w.Dev.VerifC07SendHandshakeInitiation(pk, false)
+					}()
+				}
+				ready.Wait()
+				time.Sleep(50 * time.Microsecond)
+				gate.Store(true)
+				done.Wait()
+			}
 		case "load":
 			body = fmt.Sprintf("(bl %v)", s.On)
 			d := time.Duration(0)
@@ -599,13 +644,20 @@ func runScenario(sc Scenario) (Case, error) {
 		hi := time.Now().UnixNano()
 		// A step that did not settle, or took longer than 15 ms (which would make the [5 ms, 40 ms]
 		// ambiguity window of the 20 ms flood gap unsound), invalidates the scenario: it is rerun.
-		if !out.Settled || (s.Op != "restart" && hi-lo > 15000000) {
+		if !out.Settled || (s.Op == "msg" && hi-lo > 15000000) {
 			c.Slow++
 		}
 		gal, hum, oidx, its := r.describeOut(out, ist)
 		if its != nil {
 			f7ts = append(f7ts, its)
 			f7at = append(f7at, lo)
+		}
+		if s.Op == "burst" {
+			for _, h := range hum {
+				if strings.HasPrefix(h, "initiation") {
+					o.Inits++
+				}
+			}
 		}
 		if s.Op == "msg" && s.Msg.Kind == "init" {
 			o.GapNs = lo - r.lastAcc[s.Msg.From]
@@ -1102,6 +1154,63 @@ func (g *gen) restartReplay() Scenario {
 	return Scenario{Gen: "restart-replay", Steps: st}
 }
 
+// A response whose receiver field is any index the device has issued for the peer other than
+// the handshake in progress (a session index, or a deleted one), MAC1 recomputed: not addressed
+// to a handshake in progress.
+func (g *gen) sessionIndex() Scenario {
+	p := g.peer()
+	var st []Step
+	probe := func(n int) {
+		for i := 0; i < n; i++ {
+			m := g.msg("resp", p)
+			m.Muts = []Mut{{"receiver_issued", int64(i)}}
+			m.Remac = true
+			m.Src = 1 + g.r.Intn(4)
+			st = append(st, stepMsg(m))
+		}
+	}
+	if g.r.Intn(2) == 0 {
+		// the device is responder first: session index in the `next` slot, then its own initiation
+		st = append(st, stepMsg(g.msg("init", p)), stepShift(p, 6000), stepTun(p, 80))
+		probe(2)
+		st = append(st, stepMsg(g.msg("resp", p)))
+	} else {
+		st = append(st, stepTun(p, 80), stepMsg(g.msg("resp", p)))
+	}
+	// rekey while a session exists (the timer / keep-fresh callers, through the hook)
+	for round := 0; round < 1+g.r.Intn(2); round++ {
+		st = append(st, stepShift(p, 6000), Step{Op: "burst", Peer: p, K: 1})
+		probe(3 + round)
+		if g.r.Intn(3) == 0 {
+			x := g.msg("resp", p)
+			x.Muts = []Mut{{"receiver", int64(g.r.Uint32())}}
+			x.Remac = true
+			st = append(st, stepMsg(x))
+		}
+		good := g.msg("resp", p)
+		st = append(st, stepMsg(good), stepMsg(replayOf(g, good, 3)))
+	}
+	probe(4)
+	return Scenario{Gen: "session-index", Steps: st}
+}
+
+// Concurrent callers of SendHandshakeInitiation: exactly one initiation per round may leave.
+func (g *gen) bursts() Scenario {
+	p := g.peer()
+	var st []Step
+	for i := 0; i < 12; i++ {
+		if i > 0 {
+			st = append(st, stepShift(p, 6000))
+		}
+		st = append(st, Step{Op: "burst", Peer: p, K: 4 + g.r.Intn(9)})
+		if g.r.Intn(4) == 0 {
+			st = append(st, Step{Op: "burst", Peer: p, K: 3}) // inside RekeyTimeout: nothing leaves
+		}
+	}
+	st = append(st, stepMsg(g.msg("resp", p)))
+	return Scenario{Gen: "concurrent-initiations", Steps: st}
+}
+
 func f7Scenario(aligned bool) Scenario {
 	st := []Step{stepTun(keyA, 80), {Op: "restart"}, stepTun(keyA, 80)}
 	if aligned {
@@ -1170,7 +1279,8 @@ func generate(seed int64, n int, tier string, f7rounds int) []Scenario {
 		scs = append(scs, mk().flipsResp([]int{b}))
 	}
 	fixed := []func(*gen) Scenario{(*gen).lengths, (*gen).substitutions, (*gen).timestamps, (*gen).flood, (*gen).superseded, (*gen).strangers,
-		(*gen).underLoad, (*gen).underLoad, (*gen).restartReplay, (*gen).restartReplay}
+		(*gen).underLoad, (*gen).underLoad, (*gen).restartReplay, (*gen).restartReplay,
+		(*gen).sessionIndex, (*gen).sessionIndex, (*gen).sessionIndex, (*gen).bursts, (*gen).bursts, (*gen).bursts, (*gen).bursts}
 	for _, f := range fixed {
 		scs = append(scs, f(mk()))
 	}
@@ -1196,6 +1306,8 @@ func generate(seed int64, n int, tier string, f7rounds int) []Scenario {
 			scs = append(scs, mk().underLoad())
 		case x < 88:
 			scs = append(scs, mk().restartReplay())
+		case x < 93:
+			scs = append(scs, mk().sessionIndex())
 		default:
 			scs = append(scs, mk().mixture())
 		}
